@@ -94,3 +94,239 @@ def holds_under(p, inp, default):
         return True, ev
     except zeval.Unknown as e:
         return None, str(e)
+
+
+# ----------------------------------------------------------------------------- L1d: the path side, real vs model
+# Sequences of sstore/sload (or tstore/tload) issued directly on a real Exec through
+# SEVM.sstore/SEVM.sload with the real solver, compared with the extracted path-side model
+# (c08_pathrun) fed with (a) the decoded chunk of every location, (b) the semantic identity of
+# every decoded key, (c) the oracle = what a complete decision procedure answers about two keys.
+# Compared: the term every load returns (ZERO / stored value / Select over WHICH array at WHICH
+# key / initial scalar) and the storage axioms found in ex.path afterwards, in order (array
+# definitions with their number, base array, key, value; emptiness axioms with chunk and key).
+
+PATH_KEYS = [("K", 0), ("K", 5), ("K", 7), ("V", 0), ("V", 1), ("Add", [("V", 0), ("K", 1)]), ("Add", [("K", 1), ("V", 0)])]
+SPEC_ENVS = [[5, 7, 0], [0, 5, 5], [4, 6, 1], [6, 4, 9]]      # small, colliding with the constant keys; no wrap-around
+FP_ENVS = [[3, 4, 9], [0x1234567, 5, (1 << 255) + 12345], [(1 << 256) - 1, 0, 77]]
+
+
+def gen_path_case(r):
+    def key():
+        return r.choice(PATH_KEYS)
+
+    def loc():
+        c = r.random()
+        if c < 0.4:
+            return ("S512", key(), ("K", r.choice([1, 1, 2])))
+        if c < 0.65:
+            k = key()
+            base = ("S256", ("K", 3))
+            return base if k == ("K", 0) and r.random() < 0.5 else ("Add", [base, k])
+        if c < 0.8:
+            return ("S512", key(), ("S512", key(), ("K", 4)))
+        return ("K", r.choice([0, 0, 9]))
+
+    pool = [loc() for _ in range(r.randint(2, 4))]
+    ops = []
+    nv = 0
+    for _ in range(r.randint(3, 8)):
+        t = r.choice(pool) if r.random() < 0.85 else loc()
+        if r.random() < 0.5:
+            nv += 1
+            ops.append(("store", t, 100 + nv))
+        else:
+            ops.append(("load", t))
+    ops.append(("load", r.choice(pool)))
+    return {"layout": r.choice(["solidity", "generic"]), "sym": r.random() < 0.25, "transient": r.random() < 0.25, "ops": ops}
+
+
+def _arr_code(arr):
+    name = arr.decl().name()
+    f = name.split("_")
+    if f[0] != "storage":
+        return ["?arr", name, 0, 0]
+    if f[-1] == "00":
+        if len(f) == 6:
+            return [0, int(f[2]), int(f[3]), int(f[4])]
+        if len(f) == 4:
+            return [0, -1, 1, int(f[2])]
+        return ["?arr", name, 0, 0]
+    return [1, int(f[-1]), 0, 0]
+
+
+def real_pathrun(case, lib):
+    """-> dict(model_input, results, path, other_conditions) from the real code; lib = harness.c08_lib"""
+    import z3 as Z
+
+    from halmos.__main__ import mk_solver
+    from halmos.bitvec import HalmosBitVec as BV
+    from halmos.calldata import FunctionInfo
+    from halmos.mapper import BuildOut
+    from halmos.sevm import SEVM, GenericStorage, SolidityStorage
+    from halmos.utils import con_addr
+    from halmos.utils import concat as hconcat
+
+    from harness import engine, scenarios
+
+    if BuildOut()._build_out_map is None:
+        BuildOut().set_build_out({})
+    scn = {"profile": "c08", "accounts": {scenarios.THIS: {"code": b"\x00"}}, "this": scenarios.THIS,
+           "calldata": [("c", b"\x12\x34\x56\x78")], "static": False, "options": {"storage_layout": case["layout"]}}
+    opts = engine.make_options(scn["options"])
+    sevm = SEVM(opts, FunctionInfo("T", "test", "test()", "f8a8fd6d"))
+    ex = engine.build_exec(scn, sevm, mk_solver(opts))
+    this = con_addr(scenarios.THIS)
+    transient = bool(case.get("transient"))
+    store = ex.transient_storage if transient else ex.storage
+    if case["sym"]:
+        store[this].symbolic = True
+    evs = [zeval.Evaluator(lib.z3_env(env)) for env in FP_ENVS]
+    keep = []
+
+    # ---- pre-pass: chunk and key of every location, through the real decoders
+    fps, reps = {}, []
+
+    def key_id(k):
+        fp = (k.size(),) + tuple(ev.ev(k) for ev in evs)
+        if fp not in fps:
+            fps[fp] = len(reps)
+            reps.append(k)
+        return fps[fp]
+
+    decoded = {}
+    for op in case["ops"]:
+        t = op[1]
+        if repr(t) in decoded:
+            continue
+        z = BV(lib.to_z3(t), size=256).as_z3()     # the term SEVM.sload/sstore hand to the storage model
+        keep.append(z)
+        if case["layout"] == "solidity":
+            slot, keys, n, sz = SolidityStorage.get_key_structure(ex, z)
+            k = hconcat(keys) if n else None
+            chunk = (slot, n, sz)
+        else:
+            k = GenericStorage.decode(ex, z)
+            chunk = (-1, 1, k.size())
+        keep.append(k)
+        decoded[repr(t)] = (z, chunk, None if k is None else key_id(k), 0 if k is None else int(Z.is_bv_value(Z.simplify(k))))
+    n0 = len(reps)
+
+    # ---- the oracle: what a complete procedure says about two keys (no path constraint
+    # mentions the symbolic words, so the path cannot decide more)
+    def orc(i, j):
+        a, b = reps[i], reps[j]
+        if a.size() != b.size():
+            return 2
+        if a.eq(b):
+            return 0
+        s = Z.Solver()
+        s.add(a == b)
+        if s.check() == Z.unsat:
+            return 1
+        s = Z.Solver()
+        s.add(a != b)
+        if s.check() == Z.unsat:
+            return 0
+        return 2
+
+    # ---- run
+    results, loaded = [], []
+    for op in case["ops"]:
+        z, chunk, kid, kv = decoded[repr(op[1])]
+        if op[0] == "store":
+            sevm.sstore(ex, this, BV(z, size=256), BV(op[2], size=256), transient)
+        else:
+            v = sevm.sload(ex, this, BV(z, size=256), transient)
+            v = v.as_z3() if hasattr(v, "as_z3") else v
+            keep.append(v)
+            loaded.append(v)
+            if isinstance(v, int):
+                results.append([0] if v == 0 else [1, v])
+            elif Z.is_bv_value(v):
+                results.append([0] if v.as_long() == 0 else [1, v.as_long()])
+            elif Z.is_select(v):
+                results.append([2] + _arr_code(v.arg(0)) + [key_id(v.arg(1))])
+            elif Z.is_const(v) and v.decl().name().startswith("storage_") and v.decl().name().endswith("_00"):
+                f = v.decl().name().split("_")
+                results.append([3, int(f[2]), int(f[3]), int(f[4])])
+            else:
+                results.append(["?", str(v)[:80]])
+    path, other = [], 0
+    for c in ex.path.conditions:
+        d = split_array_def(c)
+        if d is not None:
+            var, base, k, v = d
+            path.append([10, _arr_code(var)[1]] + _arr_code(base) + [key_id(k), v.as_long() if Z.is_bv_value(v) else -1])
+            continue
+        ea = split_empty_axiom(c)
+        if ea is not None:
+            path.append([11] + _arr_code(ea[0])[1:] + [key_id(ea[1])])
+            continue
+        other += 1
+    # ---- spec leg (non-symbolic accounts): under valuations of the symbolic words AND an
+    # interpretation of the initial arrays that is only as constrained as the path makes it,
+    # every load must return what the EVM's flat zero-initialised array returns
+    spec_fails = []
+    if not case["sym"]:
+        conds = list(ex.path.conditions)
+        for env in SPEC_ENVS:
+            for default in (0, SENTINELS[0]):
+                plain = zeval.Evaluator(lib.z3_env(env))
+                ev = zeval.Evaluator(lib.z3_env(env))
+                if default:
+                    arrays = {name: {} for name in initial_arrays(conds + loaded)}
+                    for c in conds:
+                        ax = split_empty_axiom(c)
+                        if ax is not None:
+                            arrays.setdefault(ax[0].decl().name(), {})[plain.ev(ax[1])] = 0
+                    for name, d in arrays.items():
+                        ev.env[name] = (d, default)
+                try:
+                    rest = ev.define_arrays(conds)
+                    if not all(ev.holds(c) for c in rest):
+                        continue
+                    got = [ev.ev(v) for v in loaded]
+                except zeval.Unknown as e:
+                    spec_fails.append({"env": env, "error": f"cannot evaluate: {e}"})
+                    continue
+                flat, expect = {}, []
+                for op in case["ops"]:
+                    a = lib.spec_eval(op[1], env)
+                    if op[0] == "store":
+                        flat[a] = op[2]
+                    else:
+                        expect.append(flat.get(a, 0))
+                if got != expect:
+                    spec_fails.append({"env": env, "halmos": got, "flat": expect,
+                                       "initial_arrays": "all zero" if not default else f"{hex(default)} wherever the path has no emptiness axiom"})
+    nk = len(reps)
+    minp = [0 if case["layout"] == "solidity" else 1, int(bool(case["sym"])), nk] + [orc(i, j) for i in range(nk) for j in range(nk)]
+    for op in case["ops"]:
+        z, chunk, kid, kv = decoded[repr(op[1])]
+        minp += [0 if op[0] == "store" else 1, chunk[0], chunk[1], chunk[2], kid or 0, kv] + ([op[2]] if op[0] == "store" else [])
+    return {"model_input": minp, "results": results, "path": path, "other_conditions": other, "new_keys_at_runtime": nk - n0,
+            "spec_fails": spec_fails}
+
+
+def parse_model_pathrun(out):
+    """c08_pathrun output -> (results, path) in real_pathrun's shape (path deduplicated like Path.append does)"""
+    if -1 not in out:
+        return None, None
+    i, results = 0, []
+    while out[i] != -1:
+        n = {0: 1, 1: 2, 2: 6, 3: 4}.get(out[i])
+        if n is None:
+            return None, None
+        results.append(out[i:i + n])
+        i += n
+    i += 1
+    path = []
+    while i < len(out):
+        n = {10: 8, 11: 5}.get(out[i])
+        if n is None:
+            return None, None
+        ax = out[i:i + n]
+        if ax not in path:
+            path.append(ax)
+        i += n
+    return results, path
